@@ -295,10 +295,25 @@ func parseReplay(a args) {
 	drift, viol := []J{}, []J{}
 	cases, asks, skipped, nontrivial, events := 0, 0, 0, 0, 0
 	var samples []interface{}
+	// the case that was run just before on the SAME parser graph (violations that need state left behind by an earlier parse)
+	var prevLine json.RawMessage
+	prevG := ""
 	readLines(a.str("in", ""), func(line []byte) {
 		var c caseT
 		if err := json.Unmarshal(line, &c); err != nil {
 			die("bad case: %v", err)
+		}
+		gk, _ := json.Marshal(c.G)
+		if string(gk) != prevG {
+			prevLine, prevG = nil, string(gk)
+		}
+		myPrev := prevLine
+		prevLine = json.RawMessage(append([]byte{}, line...))
+		addViol := func(v J) {
+			if myPrev != nil {
+				v["prev"] = myPrev
+			}
+			viol = append(viol, v)
 		}
 		if c.Root == 0 && len(c.Asks) > 0 {
 			c.Root = c.Asks[0].N
@@ -322,7 +337,7 @@ func parseReplay(a args) {
 			trace.put(J{"ev": "mutation", "n": m["n"], "pos": m["pos"], "at_return": m["at_return"], "now": m["now"]})
 		}
 		if o.bound {
-			viol = append(viol, J{"prop": "C02", "case": json.RawMessage(append([]byte{}, line...)), "what": "re-entry bound exceeded", "event": o.events[len(o.events)-1]})
+			addViol(J{"prop": "C02", "case": json.RawMessage(append([]byte{}, line...)), "what": "re-entry bound exceeded", "event": o.events[len(o.events)-1]})
 			return
 		}
 		rec := false
@@ -337,7 +352,7 @@ func parseReplay(a args) {
 			}
 			// property predicate (C01): the end positions equal what the grammar derives
 			if c.Adm && !eqJSON(got["ends"], exp.Ends) {
-				viol = append(viol, J{"prop": "C01", "case": json.RawMessage(append([]byte{}, line...)), "ask": i, "n": exp.N, "p": exp.P,
+				addViol(J{"prop": "C01", "case": json.RawMessage(append([]byte{}, line...)), "ask": i, "n": exp.N, "p": exp.P,
 					"real_ends": got["ends"], "derivation_ends": exp.Ends})
 			}
 			// conformance with the operational machine (drift if different)
@@ -349,7 +364,7 @@ func parseReplay(a args) {
 			}
 		}
 		for _, m := range o.mutations {
-			viol = append(viol, J{"prop": "C07", "case": json.RawMessage(append([]byte{}, line...)), "mutation": m})
+			addViol(J{"prop": "C07", "case": json.RawMessage(append([]byte{}, line...)), "mutation": m})
 		}
 		if rec {
 			nontrivial++
